@@ -188,7 +188,7 @@ PROPS["C16"] = {
 }
 
 PROPS["C08"] = {
-    "lean": ["WsVerif.Props.C08", "WsVerif.Props.C08ReadData", "WsVerif.Props.C04Cb", "WsVerif.Props.C04ReadAll", "WsVerif.Props.C04ReadMessageFrag", "WsVerif.Bridge.C08"],
+    "lean": ["WsVerif.Props.C08", "WsVerif.Props.C08ReadData", "WsVerif.Props.C08ReadDataClose", "WsVerif.Props.C04Cb", "WsVerif.Props.C04ReadAll", "WsVerif.Props.C04ReadMessageFrag", "WsVerif.Bridge.C08"],
     "rule": "ControlHandler.Handle (masked source on the server side), ControlFrameHandler and HandleControlMessage (Client/Server variants) "
             "for ping, pong, close x payload lengths 0..125 (all in thorough; 0..12, every 9th, 118..125 in quick) x both sides; all 65,536 "
             "close codes (thorough; 1/13 + the boundary windows in quick) with no / valid / truncated / 0xFF reasons; 1-byte close payloads; "
